@@ -8,6 +8,12 @@
   C15.3  what is removed comes from the conflicting sub-segments only, left from left and right from right; the
          sub-segments are slices of their own segment over [start of the later segment, end of the earlier one]; the
          earlier chain member is the left segment
+  C15.5  index tables are per side: the left sub-run is cut at leftCharacteristics.indexes[m], the right one at
+         rightCharacteristics.indexes[m] (each table points into its own position list, which also holds unpaired
+         positions); both use the same merge index m; the characteristics handed over are (left sub-run, right sub-run)
+         through the same label getter
+  C15.6  endOverlapsWithStartOf contains the one necessary disjunct: other.start <= self.end on any sequence (the later
+         segment starts at or before the earlier one's end); further disjuncts are harmless and only observed
 Declined: "afterwards no two segments share a label or cross" and "pairs outside the overlap are all kept".
 """
 from __future__ import annotations
@@ -57,6 +63,83 @@ def is_subsequence_of(t, base) -> str:
     return "unknown"
 
 
+def per_side_cuts(ck, rule, cut_bounds, impls, LS, RS):
+    p = ck.ctx.p
+    # ---- C15.5 per-side index tables
+    ck.floor(f"{rule} interior cuts (slice of a conflicting sub-run)", len(cut_bounds), 2)
+    merge_indexes = {}
+    for side, other, fn, w in cut_bounds:
+        prm = [pp.name for pp in fn.call_params()]
+        if len(prm) != 2:
+            raise AnalysisError(f"{fn.where}: (left characteristics, right characteristics) parameters expected")
+        own_char = V(prm[0] if side == "left" else prm[1])
+        lo, hi = other[2], other[3]
+        bound = lo if side == "left" else hi
+        shape_ok = (hi == T.NONE and lo != T.NONE) if side == "left" else (lo == T.NONE and hi != T.NONE)
+        ck.judge(shape_ok, rule, f"{short(fn)}:{side}:direction", w,
+                 "the left sub-run loses its tail [i:], the right one its head [:i]", found=T.show(other)[:160])
+        if not shape_ok:
+            continue
+        tables = [x for x in T.subterms(bound) if x[0] == "attr" and x[2] == "indexes"]
+        ok = bound[0] == "idx" and bound[1] == T.mk_attr(own_char, "indexes")
+        if ok:
+            merge_indexes[side] = bound[2]
+            ck.ok(rule, f"{short(fn)}:{side}:index-table", w, f"cut index comes from the {side} sub-run's own index table", T.show(bound)[:120])
+        elif tables:
+            ck.violation(rule, f"{short(fn)}:{side}:index-table", w, f"the {side} sub-run is cut at an index taken from the other "
+                         f"sub-run's table: the tables index different position lists (unpaired positions are interleaved "
+                         f"differently), so a pair is kept by both segments or lost by both", found=T.show(bound)[:160],
+                         required=f"{T.show(own_char)}.indexes[<merge index>]")
+        else:
+            raise AnalysisError(f"{w}: cut index of the {side} sub-run not recognised: {T.show(bound)[:160]}")
+    if len(merge_indexes) == 2:
+        ck.judge(merge_indexes["left"] == merge_indexes["right"], rule, "merge-index:shared", cut_bounds[0][3],
+                 "both sub-runs are cut at the same merge index", found=f"{T.show(merge_indexes['left'])[:100]} vs {T.show(merge_indexes['right'])[:100]}")
+    # the characteristics are (left sub-run, right sub-run) through one getter
+    for cls in impls:
+        m = cls.methods["resolveConflict"]
+        for pa in explore(ck, m):
+            if pa.outcome == "return" and pa.value[0] == "app" and len(pa.value[3]) == 2:
+                a = [v for _, v in pa.value[3]]
+                ok = all(x[0] == "app" and x[2] == sub for x, sub in zip(a, (LS, RS))) and a[0][1] == a[1][1]
+                ck.judge(bool(ok), rule, f"{short(m)}:characteristics", where(m, pa.node),
+                         "characteristics are taken from (left sub-run, right sub-run) with the same label getter",
+                         found="; ".join(T.show(x)[:80] for x in a))
+
+
+
+def collect_cuts(ck):
+    """(cut_bounds, impls, LS, RS) for per_side_cuts, computed independently of run()"""
+    p = ck.ctx.p
+    base_pair = p.find_class("_SegmentPair")
+    impls = [c for c in [base_pair] + p.all_subclasses(base_pair) if not c.module.is_test and "resolveConflict" in c.methods]
+    L, R = self_attr("leftSegment"), self_attr("rightSegment")
+    LS, RS = self_attr("leftConflictingSubsegment"), self_attr("rightConflictingSubsegment")
+    seg = p.find_class("AlignmentSegment")
+    sub_fn = p.lookup_method(seg, "__sub__", None)
+    cuts = []
+
+    def walk(fn, depth=3):
+        for pa in explore(ck, fn, unroll=(0, 1)):
+            if pa.outcome != "return":
+                continue
+            v = pa.value
+            if v[0] == "app" and depth > 0 and (v[2] == V(fn.self_name or "self") or
+                                                (v[2] is None and v[1].split(":")[1].startswith(fn.cls.name + "."))):
+                walk(p.get_function(v[1]), depth - 1)
+            elif v[0] == "tuple" and len(v[1]) == 2:
+                for side, x, own_sub in (("left", v[1][0], LS), ("right", v[1][1], RS)):
+                    if x[0] == "app" and sub_fn is not None and x[1] == sub_fn.qualname:
+                        other = list(dict(x[3]).values())[0]
+                        if other[0] == "slice" and other[1] == T.mk_attr(own_sub, "positions") and other[4] == T.NONE:
+                            cuts.append((side, other, fn, where(fn, pa.node)))
+    for cls in impls:
+        m = cls.methods["resolveConflict"]
+        if not any("abstractmethod" in d for d in m.decorators):
+            walk(m)
+    return cuts, impls, LS, RS
+
+
 def run(ck):
     ctx = ck.ctx
     p = ctx.p
@@ -64,6 +147,8 @@ def run(ck):
     ck.clause("C15.2", "pairwise pass over consecutive chain members, results written back in place")
     ck.clause("C15.3", "removed positions come from the own conflicting sub-segment; sub-segments are slices over the overlap")
     ck.clause("C15.4", "slice window: drop what lies before `start` on both sequences; only an aligned pair beyond `end` closes the sub-run")
+    ck.clause("C15.5", "each sub-run is cut at the index from its own index table, both at the same merge index")
+    ck.clause("C15.6", "conflict test detects every overlap: other.start <= self.end (on any sequence) is among its disjuncts")
     seg = p.find_class("AlignmentSegment")
     base_pair = p.find_class("_SegmentPair")
     impls = [c for c in [base_pair] + p.all_subclasses(base_pair) if not c.module.is_test and "resolveConflict" in c.methods]
@@ -89,6 +174,7 @@ def run(ck):
                 out.append((v, fn, pa))
         return out
     n_ret = 0
+    cut_bounds = []
     for cls in impls:
         m = cls.methods["resolveConflict"]
         if any("abstractmethod" in d for d in m.decorators):
@@ -114,6 +200,8 @@ def run(ck):
                              f"what is removed from the {side} segment comes from the {side} conflicting sub-segment only",
                              found=T.show(other)[:200], required=f"{T.show(own_sub)} or a slice of its positions")
                     ck.ok("C15.1", construct, w, f"{side} result = {side} segment - (part of its conflicting sub-segment)")
+                    if other[0] == "slice" and src_ok:
+                        cut_bounds.append((side, other, fn, w))
                     continue
                 news = [y for y in T.subterms(x) if y[0] == "new" or (y[0] == "app" and y[1].endswith("AlignmentSegment.create"))]
                 if news or x in (R if side == "left" else L,):
@@ -122,6 +210,7 @@ def run(ck):
                 else:
                     raise AnalysisError(f"{w}: {side} result not recognised: {T.show(x)[:200]}")
     ck.floor("C15.1 resolveConflict leaf returns", n_ret, 5)
+    per_side_cuts(ck, "C15.5", cut_bounds, impls, LS, RS)
 
     # ---- __sub__ and slice build sub-sequences through create
     positions = self_attr("positions")
@@ -225,6 +314,60 @@ def run(ck):
                      "without conflict both segments are passed through in order", found=T.show(v)[:120])
     pairwise_pass(ck, "C15.2")
     slice_window(ck)
+    overlap_test(ck)
+
+
+def overlap_test(ck, rule="C15.6"):
+    p = ck.ctx.p
+    seg = p.find_class("AlignmentSegment")
+    fn = seg.methods.get("endOverlapsWithStartOf")
+    if fn is None:
+        raise AnalysisError("AlignmentSegment.endOverlapsWithStartOf not found")
+    me, other = V(fn.self_name), V(fn.call_params()[0].name)
+
+    def le(a, b):   # a.lessOrEqualOnAnySequence(b) in either call form
+        return a, b
+    want = {(T.mk_attr(other, "startPosition"), T.mk_attr(me, "startPosition")),
+            (T.mk_attr(other, "startPosition"), T.mk_attr(me, "endPosition")),
+            (T.mk_attr(me, "endPosition"), T.mk_attr(other, "endPosition"))}
+    rets = [pa for pa in explore(ck, fn) if pa.outcome == "return"]
+    got = set()
+    unknown = []
+    if len(rets) == 1:
+        v = T.as_bool(rets[0].value)
+        parts = list(v[1]) if v[0] == "or" else [v]
+    else:
+        # if-chain form: every path returning True contributes its asserted test
+        parts = []
+        for pa in rets:
+            if pa.value == C(True):
+                parts.extend(c for c, tv, _ in pa.state.assumptions if tv)
+            elif pa.value != C(False):
+                v = T.as_bool(pa.value)
+                parts.extend(list(v[1]) if v[0] == "or" else [v])
+    for x in parts:
+        if x[0] == "mcall" and x[2] == "lessOrEqualOnAnySequence" and len(x[3]) == 1:
+            got.add((x[1], x[3][0]))
+        elif x[0] == "app" and x[1].endswith(".lessOrEqualOnAnySequence"):
+            got.add((x[2], list(dict(x[3]).values())[0]))
+        else:
+            unknown.append(x)
+    w = where(fn, rets[0].node) if rets else fn.where
+    if unknown:
+        raise AnalysisError(f"{w}: conflict test contains an unrecognised disjunct: {T.show(unknown[0])[:160]}")
+    # Only one disjunct is *necessary*: the later segment starts at or before the earlier one's end (on some sequence).
+    # `other.start <= self.start` is implied by it (start <= end within a segment); `self.end <= other.end` and any other
+    # extra disjunct can only send a non-overlapping pair through the conflict path, where both sub-runs are empty and the
+    # pair comes back unchanged - so extras are reported as an observation, never as a violation.
+    necessary = (T.mk_attr(other, "startPosition"), T.mk_attr(me, "endPosition"))
+    ck.judge(necessary in got, rule, short(fn), w,
+             "a conflict is detected whenever (on any sequence) the later segment starts at or before the earlier one's end",
+             found="disjuncts: " + "; ".join(f"{T.show(a)} <= {T.show(b)}" for a, b in sorted(got)),
+             required=f"{T.show(necessary[0])} <= {T.show(necessary[1])} among the disjuncts")
+    extra = got - want
+    if extra:
+        ck.observe(f"{rule} extra disjunct(s) in endOverlapsWithStartOf (harmless: empty sub-runs): "
+                   + "; ".join(f"{T.show(a)} <= {T.show(b)}" for a, b in sorted(extra)))
 
 
 def slice_window(ck):
